@@ -986,7 +986,15 @@ func (b *beacon) ShiftExpired(howMany int) []treasure.Treasure {
 	counter := 0
 	now := time.Now().UTC().UnixNano()
 	for _, treasureObj := range b.treasuresByOrder {
-		lockerID := treasureObj.StartTreasureGuard(true)
+		// Never WAIT for a record's guard while holding the beacon lock: a writer holds the
+		// guard first and then needs this lock to re-index the record (Save path), so waiting
+		// here deadlocks both. A record that is busy right now is simply not claimed in this
+		// round; it stays in the index for the next caller.
+		lockerID := treasureObj.StartTreasureGuard(false)
+		if lockerID == 0 {
+			remainingTreasures = append(remainingTreasures, treasureObj)
+			continue
+		}
 		// ExpirationTime == 0 means "never expires" (matches IsExpired);
 		// guard against returning rows whose TTL was cleared after they
 		// were originally indexed.
@@ -1056,7 +1064,12 @@ func (b *beacon) ShiftMatching(howMany int, predicate func(treasure.Treasure) bo
 	counter := 0
 	matchesBeyondBudget := 0
 	for _, treasureObj := range b.treasuresByOrder {
-		lockerID := treasureObj.StartTreasureGuard(true)
+		// see ShiftExpired: do not wait for a guard under the beacon lock
+		lockerID := treasureObj.StartTreasureGuard(false)
+		if lockerID == 0 {
+			remainingTreasures = append(remainingTreasures, treasureObj)
+			continue
+		}
 		matched := predicate(treasureObj)
 		if matched && counter < effectiveHowMany {
 			clonedTreasure := treasureObj.Clone(lockerID)
